@@ -111,6 +111,10 @@ func (fct *FailOverClientTransport) Send(msg *Message) error {
 		if err == nil {
 			return nil
 		}
+		if fct.secondary == nil {
+			// nothing to fall back to: keep the transport, the next message may well be sendable
+			return err
+		}
 		fct.primary = nil
 	}
 	if fct.secondary != nil {
